@@ -20,6 +20,17 @@ def main():
         print("K-unit setup failed: %r" % e)
         ok = False
     try:
+        from . import kcrate
+        chk = core.Check("setup", "quick", 0)
+        kc = kcrate.prepare(chk)
+        if not kc.build():
+            print(kc.build_log[-3000:])
+            ok = False
+        print("K-crate codegen: %s (%.0fs)" % (kc.built, kc.build_seconds))
+    except Exception as e:  # noqa
+        print("K-crate setup failed: %r" % e)
+        ok = False
+    try:
         nat = core.Native.get()
         print("native replay driver: %s" % nat.bin)
     except Exception as e:  # noqa
